@@ -15,6 +15,12 @@ package apptest
 //@   pure
 //@   trusted
 
+// fail_line: the "FAIL <pkg> <time>" line has been printed
+//@ ghost fail_line bool
+//@ extern fmt.Printf
+//@   sets fail_line = old(fail_line) || format == "FAIL %s %v\n"
+//@   trusted
+
 // every way out through os.Exit is a failure status
 //@ extern os.Exit
 //@   requires code != 0
@@ -56,8 +62,9 @@ package apptest
 //@   trusted
 
 //@ func runTest
-//@   loop 0 invariant m != nil
-//@   loop 1 invariant m != nil
+//@   requires !fail_line
+//@   loop 0 invariant m != nil && !fail_line
+//@   loop 1 invariant m != nil && !fail_line
 //   Tests: a failure is recorded only for a test that breaks its contract ...
 //@   site fmt.Errorf.0 assert t.OutputPanic
 //@   site fmt.Errorf.1 assert t.OutputPanic && !hp(got, "panic: "+expect)
@@ -71,7 +78,11 @@ package apptest
 //@   site fmt.Errorf.5 assert !t.OutputPanic && t.Output != "" && expect != got && err == nil
 //@   site wazero.BuildModule.2 assert t.OutputPanic && (hp(got, "panic: "+expect) || firstError != nil)
 //   the package is reported ok only when no failure was recorded
-//@   site fmt.Printf.16 assert firstError == nil
+//@   site fmt.Printf.16 assert firstError == nil && !fail_line
+//   a test or example that fails by an unexpected error ends the run with the FAIL line and a failure status
+//@   site os.Exit.6 assert fail_line
+//@   site os.Exit.9 assert fail_line
+//@   site os.Exit.10 assert fail_line
 //   and FAIL is printed (followed by exit status 1) only when one was
 //@   site fmt.Printf.15 assert firstError != nil
 //@   noframe
